@@ -32,7 +32,7 @@ def run(ctx):
             ctx.tlc_mc("MC_TranBlock.tla", "TranBlock_thorough.cfg", timeout=1800)
         for dev in ("commitOnThrow", "rollbackOnReturn"):
             ctx.tlc_mc("MC_TranBlock.tla", "TranBlock_dev_%s.cfg" % dev, timeout=600,
-                       expect_violation="CommitRule", count=False)
+                       expect_violation="violated", count=False)
     drv = ctx.go_build("tranblock")
     trace = ctx.work + "/tranblock.ndjson"
     nrandom = 3000 if ctx.thorough() else 300
